@@ -105,20 +105,21 @@ impl Property for C12 {
                     members.extend(partners);
                     let mut queries: Vec<C> = queries;
                     // sometimes a member of areal TYPE without area: a Rect collapsed to a segment or a point, a collinear Triangle
+                    // (the selectors are independent bit fields of `noise`: residues of one number modulo 3, 5 and 6 are not)
                     // (also one with all three vertices distinct), a Line / LineString without length - on a vertex of the other
                     // members or, half of the time, away from them; with query points on it, beside it and on its supporting line
-                    if noise % 3 == 0 {
+                    if (noise >> 8) % 3 == 0 {
                         if let Some(p0) = pool.first().copied() {
-                            let mut p1 = pool[(noise as usize / 7) % pool.len()];
+                            let mut p1 = pool[((noise >> 32) as usize) % pool.len()];
                             let mut p0 = p0;
-                            if (noise / 11) % 2 == 0 {
-                                p1 = (bb.1 .0 + 2 + ((noise / 13) % 3) as i64, bb.0 .1 - 2 + ((noise / 17) % 7) as i64);
-                                if (noise / 19) % 2 == 0 {
-                                    p0 = (p1.0 + ((noise / 23) % 3) as i64, p1.1 + 1 + ((noise / 29) % 2) as i64);
+                            if (noise >> 16) & 1 == 0 {
+                                p1 = (bb.1 .0 + 2 + ((noise >> 18) % 3) as i64, bb.0 .1 - 2 + ((noise >> 21) % 7) as i64);
+                                if (noise >> 25) & 1 == 0 {
+                                    p0 = (p1.0 + ((noise >> 27) % 3) as i64, p1.1 + 1 + ((noise >> 30) & 1) as i64);
                                 }
                             }
                             let d = (p1.0 - p0.0, p1.1 - p0.1);
-                            members.push(match (noise / 5) % 6 {
+                            members.push(match (noise >> 12) % 6 {
                                 0 => G::Rect(p0, (p1.0, p0.1)),
                                 1 => G::Rect(p1, p1),
                                 2 => G::Triangle(p0, p1, ((p0.0 + p1.0) / 2 * 2 - p0.0, (p0.1 + p1.1) / 2 * 2 - p0.1)),
@@ -262,7 +263,13 @@ impl Property for C12 {
                                 obs.label("mixed:areal-with-degenerate-or-lower-members");
                             }
                             if l == Loc::E {
-                                obs.fail(format!("{name}|outside"), format!("returned {:?} = lattice ({lx}, {ly}) is in the exterior; {}", pt, ctx()));
+                                // without any member of positive area the answer is a point of line work or of a degenerate
+                                // Rect / Triangle (for a collinear triangle: its rounded centroid): on the geometry up to rounding
+                                let d = prims.iter().map(|sg| f64_dist_point_seg((lx, ly), sg.0, sg.1)).fold(f64::INFINITY, f64::min);
+                                let tol = 8.0 * ulp(maxabs) / s + 1e-9;
+                                if areal || d > tol {
+                                    obs.fail(format!("{name}|outside"), format!("returned {:?} = lattice ({lx}, {ly}) is in the exterior; {}", pt, ctx()));
+                                }
                             } else if areal && l != Loc::I {
                                 obs.fail(format!("{name}|not-strictly-inside"), format!("returned {:?} = lattice ({lx}, {ly}) is on the boundary; {}", pt, ctx()));
                             }
